@@ -240,21 +240,22 @@ def install(ctx):
     orig_init, orig_nearest, orig_remove = cls.__init__, cls.nearest, cls.remove_path
 
     @functools.wraps(orig_init)
-    def init(self, vertices, bins_per_side, reverse):
+    def init(self, vertices, bins_per_side, reverse, *args, **kwargs):
         mon.shadows[id(self)] = Shadow(vertices, reverse, bins_per_side)
-        return orig_init(self, vertices, bins_per_side, reverse)
+        return orig_init(self, vertices, bins_per_side, reverse, *args, **kwargs)
 
     @functools.wraps(orig_remove)
-    def remove_path(self, path_index):
-        out = orig_remove(self, path_index)
+    def remove_path(self, path_index, *args, **kwargs):
+        out = orig_remove(self, path_index, *args, **kwargs)
         sh = mon.shadows.get(id(self))
         if sh is not None:
             sh.live.discard(path_index)
             ctx.count("hook:remove_path observed")
         return out
 
-    def post(self, vertex_in, result):
-        return mon.post_nearest(self, vertex_in, result)
+    def post(_ARGS, _KWARGS, result):        # name-independent: (self, query point)
+        vals = list(_ARGS) + list(_KWARGS.values())
+        return mon.post_nearest(vals[0], vals[1], result)
 
     nearest = icontract.ensure(post, error=contracts.ContractError)(orig_nearest)
     cls.__init__, cls.nearest, cls.remove_path = init, nearest, remove_path
@@ -327,6 +328,12 @@ def gen_query(rng, verts, index):
 def one_history(ctx, cls, verts, bins, reverse, mode):
     from plotink import spatial_grid
     rng = ctx.rng
+    if rng.random() < 0.25:
+        # container shapes: tuples, and lists and tuples mixed inside one path (also for closed paths)
+        style = rng.randrange(3)
+        verts = [[tuple(v[0]) if (style == 0 or (style == 1 and rng.random() < 0.5)) else list(v[0]),
+                  tuple(v[1]) if (style == 0 or (style == 2) or rng.random() < 0.5) else list(v[1])] for v in verts]
+        ctx.tag("shape: vertices given as tuples / lists and tuples mixed")
     base = [cls, "bins=%d" % bins, "reverse=%s" % reverse, "removals:" + mode]
     xs = [p[0] for v in verts for p in (v if reverse else v[:1])]
     ys = [p[1] for v in verts for p in (v if reverse else v[:1])]
@@ -559,6 +566,7 @@ def run(ctx):
     for _ in range(ctx.budget(600, 8_000)):
         two_live_indexes(ctx, mon, rng)
     ctx.need("history: two live indexes used alternately", 2000)
+    ctx.need("shape: vertices given as tuples / lists and tuples mixed", 200)
     for _ in range(ctx.budget(3_000, 40_000)):
         border_history(ctx, mon, rng)
     n = ctx.budget(1_500, 25_000)
